@@ -75,7 +75,7 @@ def auto_harness(o, ex):
         mode, ct = pass_mode(pt)
         if ct.klass == 'sv':
             nsv += 1
-            lines.append('  sv_t %s; %s.n = nondet_size(); MAKE_SV%s(%s);' % (name, name, '' if nsv == 1 else '2', name))
+            lines.append('  ND_SV%s(%s);' % ('' if nsv == 1 else '2', name))
         elif ct.arr:
             lines.append('  %s %s%s;' % (ct.c, name, ct.arr))
         else:
